@@ -3,11 +3,23 @@
 import glob, importlib.util, json, os
 here = os.path.dirname(os.path.abspath(__file__))
 out = {}
-for f in sorted(glob.glob(os.path.join(here, "m_*.py"))):
+for f in sorted(glob.glob(os.path.join(here, "m_*.py"))):  # refresh.py is applied afterwards
     spec = importlib.util.spec_from_file_location("m", f)
     m = importlib.util.module_from_spec(spec); spec.loader.exec_module(m)
     for c in m.CASES:
         out.setdefault(c["props"][0], []).append(c)
+import importlib.util as _u
+_spec = _u.spec_from_file_location("refresh", os.path.join(here, "refresh.py")); _r = _u.module_from_spec(_spec); _spec.loader.exec_module(_r)
+for (p, cid), ov in _r.OVERRIDE.items():
+    hit = [c for c in out.get(p, []) if c["id"] == cid]
+    assert hit, f"override for unknown case {p}:{cid}"
+    for c in hit:
+        for k in ("file", "old", "new", "edits", "count"):
+            c.pop(k, None)
+        c.update(ov)
+        c.setdefault("count", 1) if "edits" not in c else None
+for c in _r.EXTRA:
+    out.setdefault(c["props"][0], []).append(c)
 for p, cs in out.items():
     ids = [c["id"] for c in cs]
     assert len(ids) == len(set(ids)), f"duplicate ids in {p}"
